@@ -211,6 +211,8 @@ def gen(rng, tier):
           'src_delay': rng.choice([0, 0, 0.001])}
     if n and rng.random() < 0.25:
         sc['stall'] = [rng.randrange(n + 1), rng.choice([0.1, 0.1, 0.1, 0.5, 1.0, 1.0, 2.0])]  # the source stalls once (virtual time)
+    elif not sc['src_delay'] and rng.random() < 0.3:
+        sc['src_kind'] = rng.choice(['list', 'tuple', 'gen'])  # a plain container / generator instead of the instrumented iterator
     return {'scenario': sc, 'sim': swarm(rng, racy=0.1, line=0.2, max_time=200.0)}
 
 
@@ -228,6 +230,8 @@ def shrink(sc):
         yield dict(sc, src_delay=0)
     if sc.get('stall'):
         yield {k: v for k, v in sc.items() if k != 'stall'}
+    if sc.get('src_kind'):
+        yield {k: v for k, v in sc.items() if k != 'src_kind'}
 
 
 def mk(v):
@@ -380,7 +384,12 @@ def build_stream(sim, sc, xs, peeked):
     from mpservice.streamer import Stream
     prog = sc['prog']
     src = Src(xs, sc['src_delay'], sc.get('stall'))
-    s = Stream(src)
+    kind = sc.get('src_kind')
+    if kind and not sc['src_delay'] and not sc.get('stall'):
+        s = Stream({'list': list, 'tuple': tuple, 'gen': lambda v: (e for e in v)}[kind](xs))
+        src = Src([], 0)  # pull counts are not observable for a plain container: stays at 0, the pull-count clauses pass trivially
+    else:
+        s = Stream(src)
     for p in prog:
         op = p[0]
         if op == 'map':
